@@ -35,8 +35,8 @@ func ExtractPreparedMessages(blockHeight primitives.BlockHeight, latestPreparedV
 	prepareMessages, ok := storage.GetPrepareMessages(blockHeight, latestPreparedView, ppm.Content().SignedHeader().BlockHash())
 	if !ok || len(prepareMessages) == 0 {
 		// no PREPARE for this proposal (the storage reports ok with an empty list when the view only holds PREPAREs for
-		// other hashes): a leader whose own weight is a quorum. The proof builder indexes the first PREPARE.
-		return nil
+		// other hashes): a leader whose own weight is a quorum. Its certificate is its PREPREPARE alone.
+		prepareMessages = []*interfaces.PrepareMessage{}
 	}
 
 	return &PreparedMessages{
